@@ -329,8 +329,24 @@ fn random(a: &Args) {
             d.seed_ctors(bseed);
             let mut evs = vec![json!({"ev":"reset","src":"random","nblock":b,"tymap":tys,"xdyn":dyns.iter().map(|x| x.to_string()).collect::<Vec<_>>(),"pool":pool})];
             let mut mode = 0u8;
+            let mut follow: std::collections::VecDeque<CallSpec> = std::collections::VecDeque::new();
             for _ in 0..len {
-                let mut c = rand_call(&mut rng, &d, &mut mode);
+                // after a removal: look at the siblings of the removed id (same type, other dynamic ids;
+                // other types, same dynamic id) - they must be exactly as present as before
+                let mut c = match follow.pop_front() {
+                    Some(c) => c,
+                    None => rand_call(&mut rng, &d, &mut mode),
+                };
+                if (c.op == "remove" || c.op == "remove_by_id") && c.targ == c.ty.max(if c.op == "remove" { c.targ } else { 0 }) {
+                    let (ty, dy) = if c.op == "remove" { (c.targ, 0) } else { (c.ty, c.dy) };
+                    let mut sib: Vec<(u32, u32)> = (0..nd as u32).filter(|&x| x != dy).map(|x| (ty, x)).collect();
+                    sib.extend((1..=nt as u32).filter(|&t| t != ty).map(|t| (t, dy)));
+                    sib.shuffle(&mut rng);
+                    for (t, x) in sib.into_iter().take(2) {
+                        let op = *["try_fetch_by_id", "try_fetch_mut_by_id", "has_value_raw"].choose(&mut rng).unwrap();
+                        follow.push_back(CallSpec { op: op.into(), targ: t, ty: t, dy: x, ..Default::default() });
+                    }
+                }
                 if c.op.starts_with("meta_iter") {
                     // the table's registration order is the abstract type order
                     c.shape = (1..=nt as u32).map(|t| ShapeM { k: if c.op == "meta_iter" { "optread".into() } else { "optwrite".into() }, t }).collect();
